@@ -441,9 +441,28 @@ class ShouldIgnore:
 
 
 @opaque
-def py_reported(lit: PyLitT, file_path: OptPath, content: Opt(Str), allowed: SeqOf(Int), max_small: Int) -> Bool:
-    """A collected literal (node, parent, value, line) is reported: flagged and not suppressed by a directive."""
-    return py_flag(lit[2], lit[1], file_path, allowed, max_small) and not inline_ignored(RULE_ID, fp_text(file_path), lit[3], content)
+def py_passes_filters(lit: PyLitT, file_path: OptPath, content: Opt(Str), max_small: Int) -> Bool:
+    """Neither in an exempt position nor suppressed by a directive (both independent of allowed_numbers)."""
+    return (not py_exempt(lit[2], lit[1], file_path, max_small)) and \
+        not inline_ignored(RULE_ID, fp_text(file_path), lit[3], content)
+
+
+@opaque
+def py_lit_allowed(lit: PyLitT, allowed: SeqOf(Int)) -> Bool:
+    """The literal's value is in allowed_numbers (kept opaque so that the folds below stay small)."""
+    return in_allowed(lit[2], allowed)
+
+
+@opaque
+def py_lit_is(lit: PyLitT, a: Int) -> Bool:
+    """The literal's value equals the number a (Python equality: True == 1)."""
+    return lit[2] == a
+
+
+def py_reported(lit, file_path, content, allowed, max_small):
+    """A collected literal (node, parent, value, line) is reported: flagged (value not allowed, not exempt) and not
+    suppressed by a directive."""
+    return (not py_lit_allowed(lit, allowed)) and py_passes_filters(lit, file_path, content, max_small)
 
 
 @opaque
@@ -469,7 +488,8 @@ class TryCreateViolation:
 
     def reveals(self, literal_info, context, config):
         return (reveal(wf_py_lit, literal_info) and reveal(py_violation, literal_info, context.file_path)
-                and reveal(py_reported, literal_info, context.file_path, context.file_content, config.allowed_numbers,
+                and reveal(py_lit_allowed, literal_info, config.allowed_numbers)
+                and reveal(py_passes_filters, literal_info, context.file_path, context.file_content,
                            config.max_small_integer))
 
     def ensures_reported_iff_flagged_and_not_suppressed(self, literal_info, context, config, result):
@@ -1092,8 +1112,12 @@ class ShouldIgnoreTypescript:
 
 
 @opaque
-def ts_reported(lit: TSLitT, file_path: OptPath, content: Opt(Str), allowed: SeqOf(Int)) -> Bool:
-    return ts_flag(lit[1], lit[0], file_path, allowed) and not ts_inline_ignored(RULE_ID, fp_text(file_path), lit[2], content)
+def ts_passes_filters(lit: TSLitT, file_path: OptPath, content: Opt(Str)) -> Bool:
+    return (not ts_exempt(lit[0], file_path)) and not ts_inline_ignored(RULE_ID, fp_text(file_path), lit[2], content)
+
+
+def ts_reported(lit, file_path, content, allowed):
+    return (lit[1] not in allowed) and ts_passes_filters(lit, file_path, content)
 
 
 @opaque
@@ -1110,8 +1134,7 @@ class TryCreateTypescriptViolation:
 
     def reveals(self, node, value, line_number, context, config, analyzer):
         return (reveal(ts_violation, (node, value, line_number), context.file_path)
-                and reveal(ts_reported, (node, value, line_number), context.file_path, context.file_content,
-                           config.allowed_numbers))
+                and reveal(ts_passes_filters, (node, value, line_number), context.file_path, context.file_content))
 
     def ensures_reported_iff_flagged_and_not_suppressed(self, node, value, line_number, context, config, analyzer, result):
         return (result is not None) == ts_reported((node, value, line_number), context.file_path, context.file_content,
@@ -1163,8 +1186,12 @@ def rust_flag(value, node, allowed):
 
 
 @opaque
-def rust_reported(lit: TSLitT, file_path: OptPath, content: Opt(Str), allowed: SeqOf(Int)) -> Bool:
-    return rust_flag(lit[1], lit[0], allowed) and not inline_ignored(RULE_ID, fp_text(file_path), lit[2], content)
+def rust_passes_filters(lit: TSLitT, file_path: OptPath, content: Opt(Str)) -> Bool:
+    return (not rust_exempt(lit[0])) and not inline_ignored(RULE_ID, fp_text(file_path), lit[2], content)
+
+
+def rust_reported(lit, file_path, content, allowed):
+    return (lit[1] not in allowed) and rust_passes_filters(lit, file_path, content)
 
 
 @opaque
@@ -1181,7 +1208,7 @@ class TryCreateRustViolation:
 
     def reveals(self, node, value, line_number, context, config, analyzer):
         return (reveal(rust_violation, (node, value, line_number), context.file_path)
-                and reveal(rust_reported, (node, value, line_number), context.file_path, context.file_content, config.allowed_numbers))
+                and reveal(rust_passes_filters, (node, value, line_number), context.file_path, context.file_content))
 
     def ensures_reported_iff_flagged_and_not_suppressed(self, node, value, line_number, context, config, analyzer, result):
         return (result is not None) == rust_reported((node, value, line_number), context.file_path, context.file_content,
@@ -1663,7 +1690,7 @@ def without_value(lits: SeqOf(PyLitT), a: Int) -> SeqOf(PyLitT):
     """The literals whose value is not a (Python equality: True == 1)."""
     if len(lits) == 0:
         return []
-    if lits[0][2] == a:
+    if py_lit_is(lits[0], a):
         return without_value(lits[1:], a)
     return [lits[0]] + without_value(lits[1:], a)
 
@@ -1673,14 +1700,14 @@ def without_value(lits: SeqOf(PyLitT), a: Int) -> SeqOf(PyLitT):
 def py_file_delta(lits, acc, file_path, content, allowed, max_small, a):
     """PROPERTY: adding a value to allowed_numbers removes exactly the violations for literals of that value (and
     removing it adds exactly those): the violations with A + {a} are the violations with A of the literals whose value
-    is not a -- for integer-valued literals."""
-    if not all(isinstance(lit[2], int) for lit in lits):
-        return True
+    is not a (integer model: a recorded value is an int or a bool; any other value is equal to no number)."""
     if len(lits) == 0:
         return collect_py(lits, acc, file_path, content, allowed + [a], max_small) == \
             collect_py(without_value(lits, a), acc, file_path, content, allowed, max_small)
-    reveal(py_reported, lits[0], file_path, content, allowed, max_small)
-    reveal(py_reported, lits[0], file_path, content, allowed + [a], max_small)
+    # the only fact about numbers: membership in A + [a] is membership in A or being a (at the head literal)
+    reveal(py_lit_allowed, lits[0], allowed)
+    reveal(py_lit_allowed, lits[0], allowed + [a])
+    reveal(py_lit_is, lits[0], a)
     if py_reported(lits[0], file_path, content, allowed + [a], max_small):
         ih(py_file_delta, lits[1:], acc + [py_violation(lits[0], file_path)], file_path, content, allowed, max_small, a)
     else:
@@ -1717,8 +1744,6 @@ def ts_file_delta(lits, acc, file_path, content, allowed, a):
     if len(lits) == 0:
         return collect_ts(lits, acc, file_path, content, allowed + [a]) == \
             collect_ts(without_value_ts(lits, a), acc, file_path, content, allowed)
-    reveal(ts_reported, lits[0], file_path, content, allowed)
-    reveal(ts_reported, lits[0], file_path, content, allowed + [a])
     if ts_reported(lits[0], file_path, content, allowed + [a]):
         ih(ts_file_delta, lits[1:], acc + [ts_violation(lits[0], file_path)], file_path, content, allowed, a)
     else:
@@ -1747,8 +1772,6 @@ def rust_file_delta(lits, acc, file_path, content, allowed, a):
     if len(lits) == 0:
         return collect_rust(lits, acc, file_path, content, allowed + [a]) == \
             collect_rust(without_value_ts(lits, a), acc, file_path, content, allowed)
-    reveal(rust_reported, lits[0], file_path, content, allowed)
-    reveal(rust_reported, lits[0], file_path, content, allowed + [a])
     if rust_reported(lits[0], file_path, content, allowed + [a]):
         ih(rust_file_delta, lits[1:], acc + [rust_violation(lits[0], file_path)], file_path, content, allowed, a)
     else:
